@@ -4,6 +4,7 @@ import shipstep
 
 def run(tier):
     c = shipstep.run_step("C06", tier, "H_Step_C06", ("C06.",), {"write_failures_per_step": 0, "pre_buffer_len_max": 2},
-                          extra_entries=("H_C06_Send",))
+                          extra_entries=("H_C06_Send", "H_C06_Seq"))
+    c.assumptions.append("json.RawMessage values are real byte slices in the encoding (capacity 3, symbolic content) and a decode into an existing RawMessage reuses its backing array as encoding/json does: aliasing between buffered payloads and a reused decode target is visible (H_C06_Seq, 3 consecutive frames)")
     c.assumptions.append("NET-FIFO: the websocket delivers frames in order, once, or closes; payload fidelity of the wire encoding is C07")
     return c.finish()
